@@ -45,7 +45,8 @@ struct Drv {
   shadow: Mapper, fresh: Mapper, layout: Layout,
   in_tab: bool,
   calls: usize, fault: usize, cap: usize,
-  sleep: String,          // how TimedOut answers to timed polls behave: "no" | "yes" | "over"
+  sleep: Vec<String>,     // how the successive TimedOut answers to timed polls behave: "no" | "yes" | "over" | "late" (the last entry repeats)
+  nsleep: usize,
   intr_ok: bool,          // no two interruptions without a device report in between (the loop sleeps 4 s by design)
   arr_k: Vec<Value>, arr_t: Vec<Value>   // arrivals delivered since the last logged call
 }
@@ -117,7 +118,14 @@ impl ScriptedDriver for Drv {
         Some(Lbl::PollIntr) => continue,
         Some(Lbl::PollTimeout) if !(self.k_ready || self.t_ready) => {
           if let Some(t) = timeout {
-            match self.sleep.as_str() { "yes" => std::thread::sleep(t), "over" => std::thread::sleep(t + Duration::from_micros(2500)), _ => () }
+            let mode = if self.sleep.is_empty() { "no".to_string() } else { self.sleep[std::cmp::min(self.nsleep, self.sleep.len() - 1)].clone() };
+            self.nsleep += 1;
+            match mode.as_str() {
+              "yes" => std::thread::sleep(t),                                        // the time-out elapses
+              "over" => std::thread::sleep(t + Duration::from_micros(2500)),           // served a little late
+              "late" => std::thread::sleep(t + Duration::from_millis(8)),              // served several intervals late (a stalled process)
+              _ => ()                                                                 // answered at once: only the requested values are observed
+            }
           }
           answer = VPoll::TimedOut; break;
         },
@@ -210,12 +218,12 @@ impl Drv {
   }
 }
 
-fn run_one(id: &str, layout: &Layout, labels: &[Lbl], fault: usize, sleep: &str, out: &mut dyn Write) -> usize {
+fn run_one(id: &str, layout: &Layout, labels: &[Lbl], fault: usize, sleep: &[String], out: &mut dyn Write) -> usize {
   let mut d = Drv {
     t0: Instant::now(), sched: labels.iter().cloned().collect(), kq: VecDeque::new(), tq: VecDeque::new(),
     k_ready: false, t_ready: false, ended: false, log: vec![],
     shadow: Mapper::for_layout(layout), fresh: Mapper::for_layout(layout), layout: layout.clone(), in_tab: false,
-    calls: 0, fault, cap: 400 + 20 * labels.len(), sleep: sleep.to_string(), intr_ok: true, arr_k: vec![], arr_t: vec![]
+    calls: 0, fault, cap: 400 + 20 * labels.len(), sleep: sleep.to_vec(), nsleep: 0, intr_ok: true, arr_k: vec![], arr_t: vec![]
   };
   let r = std::panic::catch_unwind(std::panic::AssertUnwindSafe(|| run_one_device(&mut d, layout.clone())));
   writeln!(out, "{}", json!({"c": "reset", "id": id, "layout": jlayout(layout), "fault": fault, "sleep": sleep})).unwrap();
@@ -237,7 +245,10 @@ pub fn cmd_loop(path: &str) {
     let layout = playout(&c["layout"]).unwrap_or_else(|e| { eprintln!("bad layout: {}", e); std::process::exit(2) });
     let labels = parse_labels(&c["sched"]);
     let id = c["id"].as_str().map(|s| s.to_string()).unwrap_or_else(|| c["id"].to_string());
-    let sleep = c["sleep"].as_str().unwrap_or("no").to_string();
+    let sleep: Vec<String> = match &c["sleep"] {
+      Value::Array(a) => a.iter().map(|x| x.as_str().unwrap_or("no").to_string()).collect(),
+      v => vec![v.as_str().unwrap_or("no").to_string()]
+    };
     if c["faults"].as_str() == Some("all") {
       let n = run_one(&id, &layout, &labels, 0, &sleep, &mut out);
       for k in 1..=n { run_one(&format!("{}/f{}", id, k), &layout, &labels, k, &sleep, &mut out); }
